@@ -42,7 +42,7 @@ package dubbo
 //@   plet r2 := ite(r1 == "" && called("GetAttachmentWithDefaultValue#2"), callres("GetAttachmentWithDefaultValue#2", 0), r1)
 //@   plet r3 := ite(r2 == "" && called("GetAttachmentWithDefaultValue#3"), callres("GetAttachmentWithDefaultValue#3", 0), r2)
 //@   plet rpcxid := ite(r3 == "" && called("GetAttachmentWithDefaultValue#4"), callres("GetAttachmentWithDefaultValue#4", 0), r3)
-//@   ensures keys-tried: callarg("GetAttachmentWithDefaultValue#1", 1) == constant.SeataXidKey && (r1 == "" ==> called("GetAttachmentWithDefaultValue#2")) && (r2 == "" ==> called("GetAttachmentWithDefaultValue#3") && callarg("GetAttachmentWithDefaultValue#3", 1) == constant.XidKey) && (r3 == "" ==> called("GetAttachmentWithDefaultValue#4"))
+//@   ensures keys-tried: callarg("GetAttachmentWithDefaultValue#1", 1) == constant.SeataXidKey && (r1 == "" ==> called("GetAttachmentWithDefaultValue#2") && callarg("GetAttachmentWithDefaultValue#2", 1) == lower(constant.SeataXidKey)) && (r2 == "" ==> called("GetAttachmentWithDefaultValue#3") && callarg("GetAttachmentWithDefaultValue#3", 1) == constant.XidKey) && (r3 == "" ==> called("GetAttachmentWithDefaultValue#4") && callarg("GetAttachmentWithDefaultValue#4", 1) == lower(constant.XidKey))
 //@   ensures invoke-once: called("(protocol.Invoker).Invoke#1") && !called("(protocol.Invoker).Invoke#2") && result == callres("(protocol.Invoker).Invoke#1", 0)
 //@   ensures caller-side: xid != "" ==> called("SetAttachment#2") && callarg("SetAttachment#1", 1) == constant.SeataXidKey && callarg("SetAttachment#1", 2) == box(xid, string) && callarg("SetAttachment#2", 1) == constant.XidKey && callarg("SetAttachment#2", 2) == box(xid, string) && callarg("(protocol.Invoker).Invoke#1", 1) == ctx
 //@   plet hv := ctxvalue(callarg("(protocol.Invoker).Invoke#1", 1), tm.seataContextVariable)
